@@ -153,6 +153,21 @@ class Engine(Executor):
             return [(s, s.alloc(b))]
         if isinstance(v, PyTuple):
             return [(s, s.alloc(ListBox(v.items)))]
+        if isinstance(v, Z) and not self.def_str(v, s):
+            # list(<heap iterable>): a new list of as many elements (their values are not carried: abstract elements)
+            t = v.t
+            rid = V.get_rid(t)
+            ok = z3.And(V.is_Ref(t), z3.Or([V.kind_of(rid) == V.kind_id(k) for k in ("list", "dict", "set", "tuple", "CommentedSet", "deque")]))
+            out = []
+            for (s2, x) in self.need(s, ok, "TypeError", node, "list() of an iterable"):
+                if x is not None:
+                    out.append((s2, x))
+                    continue
+                cid = s2.sid(rid)
+                n = z3.If(V.kind_of(rid) == V.K_DICT, V.map_len(cid), V.seq_len(cid))
+                s2.assume(n >= 0)
+                out.append((s2, s2.alloc(AbsBox("list", n, None))))
+            return out
         raise Unsupported("list() of %s" % type(v).__name__, node)
 
     def bi_max(self, args, kwargs, s, node, want_max=True):
@@ -554,6 +569,19 @@ class Engine(Executor):
             owners = [recv.hint[1]]
         if not owners and meth in ("append", "add") and len(args) == 1 and not kwargs:
             return self.heap_container_method(recv, meth, args[0], s, node)
+        if not owners and meth in ("keys", "values", "items") and not args and not kwargs:
+            # a view of a heap dict outside a loop header: an abstract sequence of its length
+            t = recv.t
+            rid = V.get_rid(t)
+            out = []
+            for (s2, x) in self.need(s, z3.And(V.is_Ref(t), V.kind_of(rid) == V.K_DICT), "AttributeError", node, "receiver of .%s() is a dict" % meth):
+                if x is not None:
+                    out.append((s2, x))
+                    continue
+                n = V.map_len(s2.sid(rid))
+                s2.assume(n >= 0)
+                out.append((s2, s2.alloc(AbsBox("list", n, None))))
+            return out
         if len(owners) != 1:
             raise Unsupported("method .%s on a value of unknown class (candidates: %s)" % (meth, owners), node)
         ci = self.P.find_class(owners[0])
